@@ -16,7 +16,7 @@ RULE = ("histories of ~18 steps over 1-3 proxies and 1-5 concurrently open strea
         "{0,5} x ITER_STREAM_LINGER {0,3} x both server types. distinct = (history hash, step); non-trivial = the step concerns an open stream")
 ASSUMPTIONS = ["the virtual clock starts at 1e9 (a linger stamp of 0 means 'none' in Pyro's code)", "after every client-side disconnect / oneway close the harness waits for the server-side event (10 s watchdog, expiry = inconclusive)",
                "a stream whose deadline has passed may be forgotten at any time until the next explicit housekeeping step, after which it must be gone"]
-REQUIRED_REACH = ["cross_thread_closes_ok", "connected_socket_streams_ok", "histories_with_failing_disconnect_hook", "items_ok", "stopiteration_ok", "generator_exception_ok", "forgotten_ok", "reconnect_continues", "linger_expired", "lifetime_expired", "table_checked", "streaming_disabled_ok", "racing_reconnects", "server_ended_connections", "housekeeping_during_fetch", "histories_under_one_correlation_id", "concurrent_streams_checked", "slow_item_streams_checked", "natural_housekeeping_ok"]
+REQUIRED_REACH = ["reconnect_fetches_ok", "cross_thread_closes_ok", "connected_socket_streams_ok", "histories_with_failing_disconnect_hook", "items_ok", "stopiteration_ok", "generator_exception_ok", "forgotten_ok", "reconnect_continues", "linger_expired", "lifetime_expired", "table_checked", "streaming_disabled_ok", "racing_reconnects", "server_ended_connections", "housekeeping_during_fetch", "histories_under_one_correlation_id", "concurrent_streams_checked", "slow_item_streams_checked", "natural_housekeeping_ok"]
 SHARD_TIMEOUT = {"quick": 240, "thorough": 3000}
 
 
@@ -78,6 +78,10 @@ def make_service(P):
                             gate[0].set()
                             gate[1].wait(5)          # a generator that is slow to produce an item (the fetch is in progress meanwhile)
                         yield x
+                    gate = GATES.get(key)
+                    if gate is not None:
+                        gate[0].set()
+                        gate[1].wait(5)              # (slow to come to its end, too)
                     if raises:
                         raise ValueError("boom-" + key)
                 return g()
@@ -772,6 +776,93 @@ def cross_thread_close_phase(fx, rec, r, cfg, n):
         rec.count("cross_thread_closes_ok")
 
 
+def reconnect_fetch_phase(fx, vclock, rec, r, cfg, n):
+    """a proxy disconnects, comes back within the linger period and fetches; the item is slow to arrive, and while it is being produced the
+    linger period of the earlier disconnect runs out and housekeeping passes. The returning client's fetch is a use of the stream: it gets the
+    next item, the generator's own exception, or the end of the stream - whatever the generator does - and the stream goes on after it."""
+    P = fx.P
+    d = fx.daemon
+    for k in range(n):
+        key = "rf-%d" % r.randrange(10 ** 9)
+        nitems = r.choice([2, 3, 4])
+        raises = r.random() < 0.6
+        at = r.choice([1, nitems])          # the gated fetch is for item `at` (0-based), or - at == nitems - for the generator's end
+        SPECS[key] = ([[key, i] for i in range(nitems)], raises, "gen")
+        pay = {"reconnect_fetch": True, "cfg": cfg, "nitems": nitems, "raises": raises, "at": at}
+        rec.case(("reconnect-fetch", nitems, raises, at, cfg["servertype"], k), nontrivial=True, sample=pay if k == 0 else None)
+        p = fx.proxy("src", serializer=cfg["serializer"], timeout=10.0)
+        bad = None
+        try:
+            it = p.open(key)
+            got = [list(next(it)) for _ in range(at)]
+            before = len(d.evlog.of("disconnect"))
+            p._pyroRelease()
+            if not fx.wait_until(lambda: len(d.evlog.of("disconnect")) > before, 10.0):
+                rec.inconc("reconnect-fetch: the server did not notice the disconnect")
+                continue
+            vclock.now += cfg["linger"] * 0.5
+            p._pyroBind()
+            gate = (threading.Event(), threading.Event())
+            GATES[key] = gate
+            box = {}
+
+            def fetch():
+                try:
+                    p._pyroClaimOwnership()
+                    box["got"] = ("item", list(next(it)))
+                except StopIteration:
+                    box["got"] = ("stop",)
+                except Exception as x:
+                    box["got"] = ("exc", type(x).__name__, tuple(x.args))
+            th = threading.Thread(target=fetch, daemon=True)
+            th.start()
+            try:
+                if not gate[0].wait(5):
+                    rec.inconc("reconnect-fetch: the gated generator was not entered")
+                vclock.now += cfg["linger"] + 1.0          # the linger period of the earlier disconnect is over ...
+                d._housekeeping()                           # ... and housekeeping passes while the fetch is still running
+            finally:
+                GATES.pop(key, None)
+                gate[1].set()
+                th.join(10)
+                p._pyroClaimOwnership()
+            want = ("item", [key, at]) if at < nitems else (("exc", "ValueError", ("boom-" + key,)) if raises else ("stop",))
+            if box.get("got") != want:
+                bad = "the fetch of the returning client (in progress while the old linger period ran out and housekeeping passed) gave %r, the generator produced %r" % (box.get("got"), want)
+            elif at < nitems:
+                rest = []
+                try:
+                    for x in it:
+                        rest.append(list(x))
+                    end = ("stop",)
+                except Exception as x:
+                    end = ("exc", type(x).__name__, tuple(x.args))
+                want_end = ("exc", "ValueError", ("boom-" + key,)) if raises else ("stop",)
+                if rest != [[key, i] for i in range(at + 1, nitems)] or end != want_end:
+                    bad = "after that fetch the stream went on with %r and ended %r; the generator has %r left and ends %r" % (rest, end, [[key, i] for i in range(at + 1, nitems)], want_end)
+        except Exception as x:
+            rec.inconc("reconnect-fetch case failed in the harness: %r" % (x,))
+            continue
+        finally:
+            try:
+                it.close()
+            except Exception:
+                pass
+            try:
+                p._pyroClaimOwnership()
+                p._pyroRelease()
+            except Exception:
+                pass
+            SPECS.pop(key, None)
+            GATES.pop(key, None)
+        if bad:
+            rec.violation("returning-client-fetch-disturbed", "linger %s, generator of %d items%s: %s" % (cfg["linger"], nitems, " that raises at its end" if raises else "", bad), pay)
+            return
+        rec.count("reconnect_fetches_ok")
+    fx.wait_until(lambda: fx.live_connection_count() == 0, 5.0)
+    d.streaming_responses.clear()
+
+
 def install_gate(fx):
     """delay point at the entry of the daemon's disconnect handling (thread server only: there the old connection's worker and the new connection's
     worker really run concurrently); armed per connection serial by the 'racing-reconnect' step"""
@@ -815,6 +906,9 @@ def run_shard(shard, rec):
         if shard["streaming"]:
             connected_socket_phase(P, rec, r, cfg, 2 if rec.tier == "quick" else 10)
             cross_thread_close_phase(fx, rec, r, cfg, 2 if rec.tier == "quick" else 10)
+        if shard["streaming"] and shard["linger"] and not shard["lifetime"]:
+            reconnect_fetch_phase(fx, vclock, rec, r, cfg, 3 if rec.tier == "quick" else 20)
+            rec.count("reconnect_fetch_shards")
         if shard["streaming"] and shard["linger"] and not shard["lifetime"]:
             slow_item_phase(fx, rec, r, cfg, 2 if rec.tier == "quick" else 12)
         for kind, text in fixture.take_faults():
